@@ -3,7 +3,6 @@ import os, sys, json, time, re
 from common import *
 sys.path.insert(0, os.path.join(VERIF, "tv"))
 
-EXTRACT_DIR = os.path.join(VERIF, "extract")
 _built = {}
 
 
@@ -11,6 +10,7 @@ def build():
     if _built.get("done"):
         return
     import shutil
+    EXTRACT_DIR = crate_dir("extract")
     shutil.copy(os.path.join(REPO, "Cargo.lock"), os.path.join(EXTRACT_DIR, "Cargo.lock"))
     t0 = time.time()
     rc, out, _ = run(["cargo", "build", "--offline", "--target-dir", os.path.join(BUILD, "extract")], cwd=EXTRACT_DIR)
@@ -81,8 +81,10 @@ def run_tv(res, families, modes, known_roles=(), note="", reject_is_violation=Fa
     for role, names in roles.items():
         text = next((k["text"] for k in known_findings() if k.get("role") == role), role)
         res.known_finding(f"{text} [{len(names)} corpus programs, e.g. {names[0]}]")
-    if len(results) and (n_unsup + n_inc) / len(results) > 0.02 and not res.inconclusive:
-        res.inconclusive.append(f"{n_unsup} of {len(results)} programs unsupported by the encoder (> 2 %)")
+    if n_unsup:
+        # on the pinned tree the encoder supports every corpus program; a program it cannot encode on another tree
+        # (an instruction or shape the compiler did not emit before) is not decided, and the check must say so
+        res.inconclusive.append(f"{n_unsup} of {len(results)} programs not encodable (e.g. {unsupported[0]['program']}: {unsupported[0]['why'][:200]})")
     for r in results[:3] + [r for r in results if r["clif_paths"] > 3][:3]:
         samples.append({"program": r["name"], "source": open(os.path.join(tvrun.WORK, "src", r["name"] + ".roto")).read()[:600],
                         "clif_paths": r["clif_paths"], "reference_paths": r["ref_paths"], "pairs_compared": r["pairs"], "queries": r["queries"]})
